@@ -16,11 +16,11 @@ for f in $demo; do mkdir -p $out/demo/$(dirname $f); cp -r $f $out/demo/$f; done
 cp SEED_REPORT.md $out/ 2>/dev/null
 $go build ./... || { echo "BUILD FAILS"; exit 1; }
 pk=$(for f in $demo; do dirname $f; done | sort -u | sed 's#^#./#' | tr '\n' ' ')
-echo "--- demo WITH change"; $go test -vet=off -count=1 -run 'TestSeed' $pk > $out/demo-with.log 2>&1; w=$?; tail -3 $out/demo-with.log
+echo "--- demo WITH change"; $go test -vet=off -count=1 -run 'SeedDemo' $pk > $out/demo-with.log 2>&1; w=$?; tail -3 $out/demo-with.log
 git diff -- $src > /tmp/seed-eval-$id-$n.patch; git apply -R /tmp/seed-eval-$id-$n.patch
-echo "--- demo WITHOUT change"; $go test -vet=off -count=1 -run 'TestSeed' $pk > $out/demo-without.log 2>&1; wo=$?; tail -3 $out/demo-without.log
+echo "--- demo WITHOUT change"; $go test -vet=off -count=1 -run 'SeedDemo' $pk > $out/demo-without.log 2>&1; wo=$?; tail -3 $out/demo-without.log
 git apply /tmp/seed-eval-$id-$n.patch; rm -f /tmp/seed-eval-$id-$n.patch
-echo "--- existing suite with change"; $go test -vet=off -count=1 -skip 'TestSeed' ./... > $out/suite.log 2>&1; s=$?; grep -v "no test files" $out/suite.log | grep -v "^ok" | head -5
+echo "--- existing suite with change"; $go test -vet=off -count=1 -skip 'SeedDemo' ./... > $out/suite.log 2>&1; s=$?; grep -v "no test files" $out/suite.log | grep -v "^ok" | head -5
 echo "demo_with_exit=$w demo_without_exit=$wo suite_exit=$s"
 cd /verif
 echo "--- check $id quick against the seeded tree"
